@@ -144,6 +144,8 @@ def main():
                     wa.apply(o)
             except Exception:     # noqa
                 continue
+            if G.declared_cycle(wa.m):
+                continue           # known finding K1 (C01)
             hist = "; ".join(G.opstr(o) for o in ops)
             key = f"dump-load [{hist}]"
             tail = "import copy\ndump = m.dump()\nd2 = copy.deepcopy(d); m2 = xdeps.Manager(); r2 = m2.ref(d2, 'd')\nm2.load(dump)\nassert sorted(m2.dump()) == sorted(dump), (m2.dump(), dump)\n" \
